@@ -73,5 +73,340 @@ func emitRuntimeFacts(pkgs map[string]*parsed) string {
 	}
 	sb.WriteString("\n/-- serveRequests hands every ResponseWriter the connection's own writer and its single writerMu -/\n")
 	sb.WriteString("def writerLockPerConn : Bool := " + leanBool(perConn && stores) + "\n")
+	sb.WriteString(serverFacts(g))
+	sb.WriteString(connFacts(g))
+	return sb.String()
+}
+
+func isVerifPoint(st ast.Stmt) bool {
+	if es, ok := st.(*ast.ExprStmt); ok {
+		if c, ok := es.X.(*ast.CallExpr); ok {
+			if id, ok := c.Fun.(*ast.Ident); ok && id.Name == "verifPoint" {
+				return true
+			}
+		}
+	}
+	return false
+}
+
+func hasGoServe(stmts []ast.Stmt) bool {
+	found := false
+	for _, st := range stmts {
+		ast.Inspect(st, func(n ast.Node) bool {
+			if g, ok := n.(*ast.GoStmt); ok && strings.Contains(exprText(g.Call), "router.serve") {
+				found = true
+			}
+			return true
+		})
+	}
+	return found
+}
+
+// dispatchOf classifies the body of one case of serveRequests' dispatch switch.
+func dispatchOf(body []ast.Stmt) string {
+	text := ""
+	for _, st := range body {
+		text += exprText(st) + ";"
+	}
+	switch {
+	case hasGoServe(body):
+		if strings.Contains(text, "requestsWg.Add(1)") {
+			return ".goroutine"
+		}
+		return ".goroutine" // without the Add the inventory and C08's oracle flag it
+	case strings.Contains(text, "return nil") && !strings.Contains(text, "go func"):
+		return ".inlineThenReturn"
+	case strings.Contains(text, "router.serve(w, r)") || strings.Contains(text, "handler()(w, r)"):
+		return ".inline"
+	}
+	return ".inline"
+}
+
+func connFacts(g *parsed) string {
+	serve := findFunc(g, "conn.serveRequests")
+	incr, perIter := false, false
+	unbind, starttls, other := ".goroutine", ".goroutine", ".inline"
+	if serve != nil {
+		ast.Inspect(serve.Body, func(n ast.Node) bool {
+			fs, ok := n.(*ast.ForStmt)
+			if !ok {
+				return true
+			}
+			var stmts []ast.Stmt
+			for _, st := range fs.Body.List {
+				if !isVerifPoint(st) {
+					stmts = append(stmts, st)
+				}
+			}
+			if len(stmts) > 0 && exprText(stmts[0]) == "requestID++" {
+				incr = true
+			}
+			for _, st := range stmts {
+				if strings.Contains(exprText(st), "newResponseWriter(c.writer") {
+					perIter = true
+				}
+				sw, ok := st.(*ast.SwitchStmt)
+				if !ok || sw.Tag != nil {
+					continue
+				}
+				for _, cc := range sw.Body.List {
+					clause := cc.(*ast.CaseClause)
+					var body []ast.Stmt
+					for _, b := range clause.Body {
+						if !isVerifPoint(b) {
+							body = append(body, b)
+						}
+					}
+					if len(clause.List) == 0 {
+						other = dispatchOf(body)
+						continue
+					}
+					cond := exprText(clause.List[0])
+					if strings.Contains(cond, "unbindRouteOperation") {
+						unbind = dispatchOf(body)
+					} else if strings.Contains(cond, "ExtendedOperationStartTLS") {
+						starttls = dispatchOf(body)
+					}
+				}
+			}
+			return false
+		})
+	}
+	var sb strings.Builder
+	sb.WriteString("\n/-- the connection read loop: numbering and dispatch, read off conn.go -/\n")
+	sb.WriteString("def connFacts : ConnLoop.Facts :=\n")
+	sb.WriteString("  { idIncrementAtHead := " + leanBool(incr) + ",\n")
+	sb.WriteString("    unbind := " + unbind + ",\n    startTLS := " + starttls + ",\n    other := " + other + ",\n")
+	sb.WriteString("    writerPerIteration := " + leanBool(perIter) + ",\n")
+	sb.WriteString("    teardownSeq := serverFacts.teardownSeq,\n    closeWaitsHandlers := serverFacts.connCloseWaitsHandlers }\n")
+	return sb.String()
+}
+
+// funcLits returns the function literals directly launched by `go` statements in fn.
+func goLits(fn *ast.FuncDecl) []*ast.FuncLit {
+	var out []*ast.FuncLit
+	if fn == nil {
+		return out
+	}
+	ast.Inspect(fn.Body, func(n ast.Node) bool {
+		if g, ok := n.(*ast.GoStmt); ok {
+			if fl, ok := g.Call.Fun.(*ast.FuncLit); ok {
+				out = append(out, fl)
+			}
+		}
+		return true
+	})
+	return out
+}
+
+// deferredLits returns the function literals deferred directly in body (not nested).
+func deferredLits(body *ast.BlockStmt) []*ast.FuncLit {
+	var out []*ast.FuncLit
+	var walk func(stmts []ast.Stmt)
+	walk = func(stmts []ast.Stmt) {
+		for _, st := range stmts {
+			switch x := st.(type) {
+			case *ast.DeferStmt:
+				if fl, ok := x.Call.Fun.(*ast.FuncLit); ok {
+					out = append(out, fl)
+				}
+			case *ast.IfStmt:
+				walk(x.Body.List)
+			case *ast.BlockStmt:
+				walk(x.List)
+			}
+		}
+	}
+	walk(body.List)
+	return out
+}
+
+func litCallSeq(fl *ast.FuncLit, table map[string]string) []string {
+	var seq []string
+	ast.Inspect(fl.Body, func(n ast.Node) bool {
+		if c, ok := n.(*ast.CallExpr); ok {
+			if tok, ok := table[exprText(c.Fun)]; ok {
+				seq = append(seq, tok)
+			}
+		}
+		return true
+	})
+	return seq
+}
+
+func containsRecover(n ast.Node) bool {
+	found := false
+	ast.Inspect(n, func(m ast.Node) bool {
+		if c, ok := m.(*ast.CallExpr); ok {
+			if id, ok := c.Fun.(*ast.Ident); ok && id.Name == "recover" {
+				found = true
+			}
+		}
+		return true
+	})
+	return found
+}
+
+// hasDeferredRecover: the goroutine body defers (possibly under `if !...disablePanicRecovery`) a
+// function literal that calls recover().
+func hasDeferredRecover(fl *ast.FuncLit) bool {
+	for _, d := range deferredLits(fl.Body) {
+		if containsRecover(d) {
+			return true
+		}
+	}
+	return false
+}
+
+func serverFacts(g *parsed) string {
+	run := findFunc(g, "Server.Run")
+	stop := findFunc(g, "Server.Stop")
+	closeFn := findFunc(g, "conn.close")
+	serve := findFunc(g, "conn.serveRequests")
+
+	// the connection goroutine = the go literal in Run that calls serveRequests
+	var connLit *ast.FuncLit
+	for _, fl := range goLits(run) {
+		if strings.Contains(exprText(fl.Body), "serveRequests") {
+			connLit = fl
+		}
+	}
+	var teardown []string
+	recoverConn := false
+	if connLit != nil {
+		ds := deferredLits(connLit.Body)
+		if len(ds) > 0 {
+			teardown = litCallSeq(ds[0], map[string]string{"s.connWg.Done": "wgDone", "conn.close": "connClose", "s.onCloseHandler": "onClose"})
+		}
+		recoverConn = hasDeferredRecover(connLit)
+	}
+	closeSeq := callSeq(closeFn, map[string]string{"c.requestsWg.Wait": "wait", "c.netConn.Close": "close"})
+	waits := len(closeSeq) == 2 && closeSeq[0] == "wait" && closeSeq[1] == "close"
+	stopSeq := callSeq(stop, map[string]string{"s.listener.Close": "closeListener", "s.shutdownCancel": "cancel", "s.connWg.Wait": "waitConns"})
+
+	// readiness: every assignment to s.listenerReady is `err == nil`, or `true` on the success path only
+	readyOK := run != nil
+	if run != nil {
+		stmts := run.Body.List
+		for i, st := range stmts {
+			as, ok := st.(*ast.AssignStmt)
+			if !ok || len(as.Lhs) != 1 || exprText(as.Lhs[0]) != "s.listenerReady" {
+				continue
+			}
+			rhs := exprText(as.Rhs[0])
+			if rhs == "err == nil" {
+				continue
+			}
+			// `true`: acceptable only if an `if err != nil { return }` guard precedes it after the Listen call
+			guarded := false
+			for j := i - 1; j >= 0; j-- {
+				if is, ok := stmts[j].(*ast.IfStmt); ok && exprText(is.Cond) == "err != nil" {
+					guarded = true
+				}
+				if strings.Contains(exprText(stmts[j]), "net.Listen") {
+					break
+				}
+			}
+			if !(rhs == "true" && guarded) {
+				readyOK = false
+			}
+		}
+		// assignments nested deeper (inside ifs) are not analysed: fail closed
+		ast.Inspect(run.Body, func(n ast.Node) bool {
+			if is, ok := n.(*ast.IfStmt); ok {
+				if strings.Contains(exprText(is.Body), "s.listenerReady =") && exprText(is.Cond) != "err == nil" {
+					readyOK = false
+				}
+			}
+			return true
+		})
+	}
+
+	ctxCloses, addGuarded, acceptContinues := false, false, false
+	if run != nil {
+		ast.Inspect(run.Body, func(n ast.Node) bool {
+			switch x := n.(type) {
+			case *ast.CommClause:
+				if x.Comm != nil && strings.Contains(exprText(x.Comm), "s.shutdownCtx.Done()") {
+					body := ""
+					for _, b := range x.Body {
+						body += exprText(b) + ";"
+					}
+					// the top-of-loop branch: returns nil
+					if strings.Contains(body, "return nil") && strings.Contains(body, "s.listener.Close()") {
+						ctxCloses = true
+					}
+				}
+			case *ast.ForStmt:
+				stmts := x.Body.List
+				for i, st := range stmts {
+					if strings.Contains(exprText(st), "s.connWg.Add(1)") {
+						locked, checked := false, false
+						for j := i - 1; j >= 0; j-- {
+							t := exprText(stmts[j])
+							if t == "s.mu.Unlock()" {
+								break
+							}
+							if strings.Contains(t, "shutdownCtx") {
+								checked = true
+							}
+							if t == "s.mu.Lock()" {
+								locked = true
+								break
+							}
+						}
+						addGuarded = locked && checked
+					}
+					if is, ok := st.(*ast.IfStmt); ok && exprText(is.Cond) == "err != nil" && i > 0 && strings.Contains(exprText(stmts[i-1]), "s.listener.Accept()") {
+						if len(is.Body.List) > 0 {
+							last := is.Body.List[len(is.Body.List)-1]
+							if bs, ok := last.(*ast.BranchStmt); ok && bs.Tok.String() == "continue" {
+								acceptContinues = true
+							}
+						}
+					}
+				}
+			}
+			return true
+		})
+	}
+	recoverReq := false
+	for _, fl := range goLits(serve) {
+		if strings.Contains(exprText(fl.Body), "router.serve") {
+			recoverReq = hasDeferredRecover(fl)
+		}
+	}
+	// a goroutine (or context.AfterFunc) that reacts to the cancelled context by unblocking reads
+	unblocks := false
+	for _, fn := range []*ast.FuncDecl{run, serve, findFunc(g, "newConn")} {
+		if fn == nil {
+			continue
+		}
+		ast.Inspect(fn.Body, func(n ast.Node) bool {
+			fl, ok := n.(*ast.FuncLit)
+			if !ok {
+				return true
+			}
+			t := exprText(fl.Body)
+			if strings.Contains(t, "shutdownCtx.Done()") && !strings.Contains(t, "serveRequests") &&
+				(strings.Contains(t, "SetReadDeadline(") || strings.Contains(t, "SetDeadline(") || strings.Contains(t, ".Close()")) {
+				unblocks = true
+			}
+			return true
+		})
+	}
+	var sb strings.Builder
+	sb.WriteString("\n/-- server life cycle: step orders and flags read off server.go / conn.go -/\n")
+	sb.WriteString("def serverFacts : Server.Facts :=\n")
+	sb.WriteString("  { teardownSeq := " + leanList(".", teardown) + ",\n")
+	sb.WriteString("    connCloseWaitsHandlers := " + leanBool(waits) + ",\n")
+	sb.WriteString("    stopSeq := " + leanList(".", stopSeq) + ",\n")
+	sb.WriteString("    readyOnlyOnSuccess := " + leanBool(readyOK) + ",\n")
+	sb.WriteString("    ctxBranchClosesListener := " + leanBool(ctxCloses) + ",\n")
+	sb.WriteString("    addGuarded := " + leanBool(addGuarded) + ",\n")
+	sb.WriteString("    acceptErrContinues := " + leanBool(acceptContinues) + ",\n")
+	sb.WriteString("    recoverOnConn := " + leanBool(recoverConn) + ",\n")
+	sb.WriteString("    recoverOnRequest := " + leanBool(recoverReq) + ",\n")
+	sb.WriteString("    cancelUnblocksReads := " + leanBool(unblocks) + " }\n")
 	return sb.String()
 }
